@@ -95,7 +95,13 @@ Unmarshal(dec, i, pbOK) ==
   ELSE [k |-> "Ok", why |-> "", same |-> ce.off = PayloadPos(i)]
 
 (* natsToProtoMessage: an envelope of type Publish that decodes becomes the *)
-(* message it carries, anything else is an opaque value                     *)
+(* message it carries, anything else is an opaque value.  In both cases the *)
+(* server records the NATS subject and reply subject the bytes arrived with *)
+(* in two headers it owns ("subject", "reply"); `same` includes that these  *)
+(* name the real subject / reply - an envelope whose own header map uses    *)
+(* these names must not be able to dictate them.  Valid payloads are built  *)
+(* in three shapes: plain, with a header entry without value, with a header *)
+(* entry named like a server-owned header.                                  *)
 Store(i, pbOK) ==
   LET u == Unmarshal("pb", i, pbOK) IN
   IF u.k = "Crash" THEN [k |-> "Crash", same |-> FALSE]
